@@ -20,7 +20,33 @@ open Spec.Rfc6891
 
 /-! ### 1. the TTL word -/
 
-theorem or_shl8 (a v : Nat) (ha : a < 256) : (a ||| (v <<< 8)) = a + v * 256 := by
+/-- `byteSwap32` on a word given by its four octets -/
+theorem byteSwap32_octets (a b c d : Nat) (ha : a < 256) (hb : b < 256) (hc : c < 256)
+    (hd : d < 256) :
+    byteSwap32 (a * 2 ^ 24 + b * 2 ^ 16 + c * 256 + d) = d * 2 ^ 24 + c * 2 ^ 16 + b * 256 + a := by
+  simp only [byteSwap32, Nat.reducePow]
+  have h1 : (a * 16777216 + b * 65536 + c * 256 + d) % 256 = d := by omega
+  have h2 : (a * 16777216 + b * 65536 + c * 256 + d) / 256 % 256 = c := by omega
+  have h3 : (a * 16777216 + b * 65536 + c * 256 + d) / 65536 % 256 = b := by omega
+  have h4 : (a * 16777216 + b * 65536 + c * 256 + d) / 16777216 % 256 = a := by omega
+  rw [h1, h2, h3, h4]
+
+/-- the RFC's fields of a byte-swapped word are the original's octets in reverse -/
+theorem fields_of_byteSwap32 (t : Nat) :
+    extendedRcodeOfTtl (byteSwap32 t) = t % 256 ∧ versionOfTtl (byteSwap32 t) = t / 256 % 256 ∧
+    flagsOfTtl (byteSwap32 t) = t / 65536 % 256 * 256 + t / 2 ^ 24 % 256 := by
+  simp only [byteSwap32, extendedRcodeOfTtl, versionOfTtl, flagsOfTtl, Nat.reducePow]
+  have ha : t % 256 < 256 := Nat.mod_lt _ (by decide)
+  have hb : t / 256 % 256 < 256 := Nat.mod_lt _ (by decide)
+  have hc : t / 65536 % 256 < 256 := Nat.mod_lt _ (by decide)
+  have hd : t / 16777216 % 256 < 256 := Nat.mod_lt _ (by decide)
+  generalize t % 256 = a at *
+  generalize t / 256 % 256 = b at *
+  generalize t / 65536 % 256 = c at *
+  generalize t / 16777216 % 256 = d at *
+  refine ⟨by omega, by omega, by omega⟩
+
+theorem Rfc.or_shl8 (a v : Nat) (ha : a < 256) : (a ||| (v <<< 8)) = a + v * 256 := by
   rw [Nat.or_comm, ← Nat.shiftLeft_add_eq_or_of_lt (by simpa using ha), Nat.shiftLeft_eq]
   omega
 
@@ -34,7 +60,7 @@ theorem extended_bits (r : RCODE) :
 theorem encodeTtl_val (o : OptData) (h : Header) :
     encodeTtl o h = extendedRcode h.rcode.toCode + o.version * 256 := by
   unfold encodeTtl
-  rw [(extended_bits h.rcode).1, or_shl8 _ _ (by have := (extended_bits h.rcode).2; omega)]
+  rw [(extended_bits h.rcode).1, Rfc.or_shl8 _ _ (by have := (extended_bits h.rcode).2; omega)]
 
 /-- The TTL the library writes is the RFC 6891 TTL (extended RCODE, version, flags = 0) with its
 four octets in the opposite order. -/
@@ -73,11 +99,11 @@ extended RCODE and version — the two HIGH octets in the library's layout — a
 flags of the byte-swapped word are zero. -/
 theorem opt_flags_written_zero (o : OptData) (h : Header) (hv : o.version < 256) :
     encodeTtl o h < 65536 ∧ flagsOfTtl (byteSwap32 (encodeTtl o h)) = 0 := by
-  rw [encodeTtl_val]
+  rw [(fields_of_byteSwap32 _).2.2, encodeTtl_val]
   have := (extended_bits h.rcode).2
   generalize extendedRcode h.rcode.toCode = e at *
   generalize o.version = v at *
-  simp only [byteSwap32, flagsOfTtl, Nat.reducePow]
+  simp only [Nat.reducePow]
   omega
 
 /-! ### 2. the 12-bit response code -/
@@ -117,12 +143,9 @@ theorem rcode_split_rfc (o : OptData) (h : Header) :
     rw [encodeTtl_val]
     have := (extended_bits h.rcode).2
     omega
-  rw [← h2]
-  generalize encodeTtl o h = t
-  simp only [byteSwap32, extendedRcodeOfTtl, Nat.reducePow]
-  omega
+  rw [(fields_of_byteSwap32 _).1, h2]
 
-theorem and_ff (t : Nat) : t &&& 0xFF = t % 256 := by
+theorem Rfc.and_ff (t : Nat) : t &&& 0xFF = t % 256 := by
   rw [show (0xFF : Nat) = 2 ^ 8 - 1 from rfl, Nat.and_two_pow_sub_one_eq_mod]
 
 /-- Parsing reverses the split: from the TTL the library wrote and a header carrying only the low
@@ -135,7 +158,7 @@ theorem rcode_recombine (o : OptData) (h : Header) :
     have := (extended_bits h.rcode).2
     omega
   unfold extractRcode
-  rw [and_ff, h2]
+  rw [Rfc.and_ff, h2]
   simp only
   cases h.rcode <;> decide
 
@@ -146,16 +169,14 @@ theorem extractRcode_eq (t : Nat) (h : Header) (hc : h.rcode.toCode < 16) :
     t % 256 = extendedRcodeOfTtl (byteSwap32 t) := by
   constructor
   · unfold extractRcode fullRcode
-    rw [and_ff]
+    rw [Rfc.and_ff]
     have hlt : t % 256 < 256 := Nat.mod_lt _ (by decide)
     generalize t % 256 = x at *
     generalize h.rcode.toCode = c at *
     have : (x <<< 4) ||| c = x * 16 + c := by
       rw [← Nat.shiftLeft_add_eq_or_of_lt (by simpa using hc), Nat.shiftLeft_eq]
-      rfl
     rw [this, Nat.mod_eq_of_lt (by omega)]
-  · simp only [byteSwap32, extendedRcodeOfTtl, Nat.reducePow]
-    omega
+  · exact (fields_of_byteSwap32 t).1.symm
 
 /-- the header's own 4 bits always parse to a code below 16 -/
 theorem parsed_rcode_lt (w : Nat) : (RCODE.ofCode (w &&& Mask.RCODE)).toCode < 16 := by
@@ -165,5 +186,251 @@ theorem parsed_rcode_lt (w : Nat) : (RCODE.ofCode (w &&& Mask.RCODE)).toCode < 1
   generalize w &&& Mask.RCODE = c at *
   unfold RCODE.ofCode
   split <;> simp [RCODE.toCode] <;> omega
+
+/-- On parse the two high TTL octets — where the library's layout leaves room for the RFC's DO/Z
+flags — are ignored: response code and version are functions of the low 16 bits only, and
+`OptData` has no field to expose them. -/
+theorem opt_flags_ignored (t : Nat) (h : Header) :
+    extractRcode (t % 65536) h = extractRcode t h ∧ t % 65536 / 256 % 256 = t / 256 % 256 := by
+  refine ⟨?_, by omega⟩
+  unfold extractRcode
+  rw [Rfc.and_ff, Rfc.and_ff, show t % 65536 % 256 = t % 256 by omega]
+
+/-! ### 3. the OPT pseudo-record on the wire -/
+
+/-- the OPT pseudo-record as the library writes it: root owner name, TYPE 41, CLASS = UDP payload
+size, the (byte-swapped, see section 1) TTL word, RDLENGTH, and RFC 6891's option list -/
+def optRecordBytes (o : OptData) (h : Header) : Bytes :=
+  [0] ++ (beN 2 41 ++ (beN 2 o.udp ++ (beN 4 (encodeTtl o h) ++
+    (beN 2 (encodeOptions o.codes).length ++ encodeOptions o.codes))))
+
+theorem optRR_write (o : OptData) (h : Header) (ho : h.opt = some o) :
+    writeRRs h.optRR.toList = .ok (optRecordBytes o h) := by
+  simp [Header.optRR, ho, writeRRs, RR.write, RR.writeCommon, RData.write, RData.typeOf,
+    TYPE.toCode, Name.write, optRecordBytes, encOptCodes, Rfc.opt_len,
+    Rfc.encTlvs22_eq_encodeOptions]
+
+/-- A packet with EDNS data is serialised with the OPT pseudo-record immediately after the
+name-server records and before the additional records, counted in ARCOUNT; the header's flags
+word carries the low 4 bits of the response code. "Partial": the TTL word is the library's
+byte-swapped one (`optTtl_is_byteswapped`), everything else is RFC 6891's layout. -/
+theorem opt_record_layout_partial {p : Packet} {o : OptData} (hwf : p.WF)
+    (ho : p.header.opt = some o) :
+    ∃ an ns ar, writeRRs p.answers = .ok an ∧ writeRRs p.nameServers = .ok ns ∧
+      writeRRs p.additional = .ok ar ∧
+      Packet.build p = .ok (p.writeHeader ++ (writeQuestions p.questions ++
+        (an ++ (ns ++ (optRecordBytes o p.header ++ ar))))) ∧
+      p.writeHeader = beN 2 p.header.id ++ (beN 2 p.header.getFlags ++
+        (beN 2 p.questions.length ++ (beN 2 p.answers.length ++
+          (beN 2 p.nameServers.length ++ beN 2 (p.additional.length + 1))))) ∧
+      p.additional.length + 1 < 65536 ∧
+      p.header.getFlags % 16 = headerRcode p.header.rcode.toCode ∧
+      (encodeOptions o.codes).length < 65536 := by
+  obtain ⟨hh, _, _, _, har, _, han, hns, hadd, _⟩ := hwf
+  obtain ⟨an, han⟩ := Rfc.writeRRs_ok han
+  obtain ⟨ns, hns⟩ := Rfc.writeRRs_ok hns
+  obtain ⟨ar, hadd⟩ := Rfc.writeRRs_ok hadd
+  simp only [ho, Option.isSome_some, if_true] at har
+  obtain ⟨_, hfl, hopt⟩ := hh
+  rw [ho] at hopt
+  have hlen : (encodeOptions o.codes).length < 65536 := by
+    have := hopt.2
+    simp only [RData.writtenLen, RData.write, encOptCodes, Rfc.encTlvs22_eq_encodeOptions] at this
+    omega
+  refine ⟨an, ns, ar, han, hns, hadd, ?_, ?_, by omega, getFlags_low_nibble _ hfl, hlen⟩
+  · simp [Packet.build, han, hns, hadd, optRR_write o p.header ho]
+  · simp only [Packet.writeHeader, Header.write, ho, Option.isSome_some, if_true]
+    rw [Nat.mod_eq_of_lt (by omega)]
+
+/-! ### 4. parsing lifts the OPT record out of the additional section -/
+
+open Framing (Corr RecOK)
+
+/-- a parsed header has no EDNS data yet and a response code of 4 bits -/
+theorem Rfc.header_parse_facts {d : Bytes} {h0 : Header} (h : Header.parse d = .ok h0) :
+    h0.opt = none ∧ h0.rcode.toCode < 16 := by
+  unfold Header.parse at h
+  split at h
+  · cases h
+  · obtain ⟨fb, _, h⟩ := Out.bind_eq_ok h
+    dsimp only at h
+    split at h
+    · cases h
+    · obtain ⟨ib, _, h⟩ := Out.bind_eq_ok h
+      cases h
+      exact ⟨rfl, parsed_rcode_lt _⟩
+
+/-- Parsing reverses the serialisation of EDNS data. Let `w` be the RFC 1035 walk of the message
+(Spec/Envelope.lean), `h0` the 12-byte header as parsed, and `all` the parsed records of the
+additional section (one per walked entry, `Corr`).
+
+* If no walked additional entry has TYPE 41, the packet has no EDNS data, the header is `h0` and
+  the additional section is `all`.
+* Otherwise, for the FIRST entry `e` with TYPE 41: the packet's EDNS data `o` has
+  UDP size = `e`'s CLASS field, version = the second-lowest octet of `e`'s TTL (the library's
+  position; in RFC terms the VERSION of the byte-swapped TTL), the RDLENGTH bytes of `e`'s RDATA
+  are exactly RFC 6891's encoding of `o.codes`; the response code is recombined from the low TTL
+  octet (upper 8 bits) and the header's 4 bits; and that record — only that one — is removed
+  from the additional section. -/
+theorem opt_lift {d : Bytes} {p : Packet} (h : Packet.parse d = .ok p) :
+    ∃ w h0 all, Spec.walk d = some w ∧ Header.parse d = .ok h0 ∧ h0.opt = none ∧
+      Corr (RecOK d) all w.additional ∧
+      ((∀ e ∈ w.additional, e.type ≠ 41) →
+        p.header = h0 ∧ p.header.opt = none ∧ p.additional = all) ∧
+      (∀ epre e epost, w.additional = epre ++ e :: epost → (∀ x ∈ epre, x.type ≠ 41) →
+        e.type = 41 →
+        ∃ o, p.header = { h0 with
+              rcode := RCODE.ofCode (fullRcode (e.ttl % 256) h0.rcode.toCode), opt := some o } ∧
+          o.udp = e.cls ∧ o.version = e.ttl / 256 % 256 ∧
+          o.version = versionOfTtl (byteSwap32 e.ttl) ∧
+          e.ttl % 256 = extendedRcodeOfTtl (byteSwap32 e.ttl) ∧
+          (d.drop e.rdStart).take e.rdlen = encodeOptions o.codes ∧
+          (∀ y ∈ o.codes, y.1 < 65536 ∧ y.2.length < 65536) ∧
+          p.additional = all.take epre.length ++ all.drop (epre.length + 1)) := by
+  unfold Packet.parse at h
+  obtain ⟨h0, hh0, h⟩ := Out.bind_eq_ok h
+  obtain ⟨qd, hqd, h⟩ := Out.bind_eq_ok h
+  obtain ⟨⟨qs, p1⟩, hqs, h⟩ := Out.bind_eq_ok h
+  dsimp only at h
+  obtain ⟨an, han, h⟩ := Out.bind_eq_ok h
+  obtain ⟨⟨as, p2⟩, has, h⟩ := Out.bind_eq_ok h
+  dsimp only at h
+  obtain ⟨ns, hns, h⟩ := Out.bind_eq_ok h
+  obtain ⟨⟨nss, p3⟩, hnss, h⟩ := Out.bind_eq_ok h
+  dsimp only at h
+  obtain ⟨ar, har, h⟩ := Out.bind_eq_ok h
+  obtain ⟨⟨all, p4⟩, hall, h⟩ := Out.bind_eq_ok h
+  dsimp only at h
+  obtain ⟨h1, hh1, h⟩ := Out.bind_eq_ok h
+  cases h
+  obtain ⟨eq, heq, _, _, _⟩ := Framing.parseQuestions_frame hqs
+  obtain ⟨ea, hea, _, _, _⟩ := Framing.parseRRs_frame has
+  obtain ⟨en, hen, _, _, _⟩ := Framing.parseRRs_frame hnss
+  obtain ⟨er, her, _, _, cr⟩ := Framing.parseRRs_frame hall
+  have co := Rfc.parseRRs_optOK hall her
+  have hinv := parseRRs_optInv hall
+  obtain ⟨hopt0, hrc0⟩ := Rfc.header_parse_facts hh0
+  have hwalk : Spec.walk d = some
+      { questions := eq, answers := ea, nameServers := en, additional := er, stop := p4 } := by
+    unfold Spec.walk
+    simp [Framing.field_of_peekU16 hqd, Framing.field_of_peekU16 han,
+      Framing.field_of_peekU16 hns, Framing.field_of_peekU16 har, heq, hea, hen, her]
+  refine ⟨_, h0, all, hwalk, hh0, hopt0, cr, ?_, ?_⟩
+  · intro hno
+    have hnone : ∀ r ∈ all, r.rdata.typeOf ≠ .OPT :=
+      Rfc.corr_forall_left cr hno (fun r e hre hq hr => hq (Rfc.ofCode_eq_OPT (hre.2.2.1 ▸ hr)))
+    rw [Rfc.liftOpt_none hnone] at hh1
+    simp only [Header.extractOpt, Out.ok.injEq] at hh1
+    subst hh1
+    exact ⟨rfl, hopt0, by simp only [Rfc.liftOpt_none hnone]⟩
+  · intro epre e epost hsplit hpre h41
+    simp only at hsplit
+    subst hsplit
+    obtain ⟨apre, r, apost, hall', hlen, cpre, hre, _⟩ := Rfc.corr_split cr
+    obtain ⟨apre', r', apost', hall'', hlen', _, hoe, _⟩ := Rfc.corr_split co
+    have hr' : r' = r ∧ apre' = apre := by
+      rw [hall''] at hall'
+      have := List.append_inj hall' (by omega)
+      exact ⟨(List.cons.inj this.2).1, this.1⟩
+    obtain ⟨rfl, rfl⟩ := hr'
+    have hnone : ∀ x ∈ apre', x.rdata.typeOf ≠ .OPT :=
+      Rfc.corr_forall_left cpre hpre (fun x e hxe hq hx => hq (Rfc.ofCode_eq_OPT (hxe.2.2.1 ▸ hx)))
+    have hropt : r'.rdata.typeOf = .OPT := by rw [hre.2.2.1, h41]; rfl
+    obtain ⟨o, ho⟩ := hinv r' (by rw [hall']; simp) hropt
+    obtain ⟨_, _, _, hudp, hver, hbytes, hbound⟩ := hoe o ho
+    have hlift := Rfc.liftOpt_first (post := apost) hnone hropt
+    rw [← hall'] at hlift
+    rw [hlift] at hh1
+    simp only [Header.extractOpt, ho, Out.ok.injEq] at hh1
+    subst hh1
+    refine ⟨o, ?_, hudp, hver, ?_, (fields_of_byteSwap32 _).1.symm, hbytes, hbound, ?_⟩
+    · rw [(extractRcode_eq _ _ hrc0).1, hre.2.1]
+    · rw [hver, (fields_of_byteSwap32 _).2.1]
+    · simp only [hlift]
+      rw [hall', ← hlen]
+      simp
+
+/-! ### 5. a concrete packet: BADVERS, version 3, one option (code 10, 8 bytes), one A record -/
+
+def c09Packet : Packet :=
+  { header := { id := 0x1234, opcode := .StandardQuery, rcode := .BADVERS, flags := 0x8000,
+                opt := some { udp := 1232, version := 3, codes := [(10, [1, 2, 3, 4, 5, 6, 7, 8])] } },
+    questions := [], answers := [], nameServers := [],
+    additional := [{ name := [[97]], cls := .IN, ttl := 60, rdata := .flat 1 [.int 0x7F000001],
+                     flush := false }] }
+
+def c09Bytes : Bytes :=
+  [0x12, 0x34, 0x80, 0x00, 0, 0, 0, 0, 0, 0, 0, 2,
+   0, 0, 41, 0x04, 0xD0, 0, 0, 3, 1, 0, 12, 0, 10, 0, 8, 1, 2, 3, 4, 5, 6, 7, 8,
+   1, 97, 0, 0, 1, 0, 1, 0, 0, 0, 60, 0, 4, 127, 0, 0, 1]
+
+example : c09Packet.WF := by decide
+example : Packet.build c09Packet = .ok c09Bytes := by decide
+example : optRecordBytes { udp := 1232, version := 3, codes := [(10, [1, 2, 3, 4, 5, 6, 7, 8])] }
+    c09Packet.header =
+    [0, 0, 41, 0x04, 0xD0, 0, 0, 3, 1, 0, 12, 0, 10, 0, 8, 1, 2, 3, 4, 5, 6, 7, 8] := by decide
+
+theorem c09_name12 : Name.parse c09Bytes 12 = .ok ([], 13) := by
+  unfold Name.parse
+  rw [nameLoop]; simp [c09Bytes]
+
+theorem c09_name35 : Name.parse c09Bytes 35 = .ok ([[97]], 38) := by
+  unfold Name.parse
+  rw [nameLoop]; simp [c09Bytes]
+  rw [nameLoop]; simp
+
+theorem c09_rr12 : RR.parse c09Bytes 12 = .ok
+    ({ name := [], cls := .IN, ttl := 0x0301,
+       rdata := .opt { udp := 1232, version := 3, codes := [(10, [1, 2, 3, 4, 5, 6, 7, 8])] },
+       flush := false }, 35) := by
+  unfold RR.parse
+  rw [c09_name12]
+  decide +kernel
+
+theorem c09_rr35 : RR.parse c09Bytes 35 = .ok
+    ({ name := [[97]], cls := .IN, ttl := 60, rdata := .flat 1 [.int 0x7F000001],
+       flush := false }, 52) := by
+  unfold RR.parse
+  rw [c09_name35]
+  decide +kernel
+
+/-- parsing gives the packet back: the OPT record is gone from the additional section, the
+response code is BADVERS again (header nibble 0, extended part 1) -/
+theorem c09_parse : Packet.parse c09Bytes = .ok c09Packet := by
+  have hh : Header.parse c09Bytes =
+      .ok { id := 0x1234, opcode := .StandardQuery, rcode := .NoError, flags := 0x8000,
+            opt := none } := by decide +kernel
+  have h1 : Peek.questions c09Bytes = .ok 0 := by decide +kernel
+  have h2 : Peek.answers c09Bytes = .ok 0 := by decide +kernel
+  have h3 : Peek.nameServers c09Bytes = .ok 0 := by decide +kernel
+  have h4 : Peek.additional c09Bytes = .ok 2 := by decide +kernel
+  unfold Packet.parse
+  rw [hh, h1, h2, h3, h4]
+  simp only [Out.bind_ok, parseQuestions, parseRRs, c09_rr12, c09_rr35, Out.pure_eq]
+  decide
+
+/-- the walked additional entries of the example: the OPT entry (TYPE 41, CLASS field 1232,
+TTL 0x00000301, 12 bytes of RDATA) and the A record -/
+example : (Spec.walk c09Bytes).map (·.additional) = some
+    [{ off := 12, nameEnd := 13, type := 41, cls := 1232, ttl := 0x0301, rdlen := 12 },
+     { off := 35, nameEnd := 38, type := 1, cls := 1, ttl := 60, rdlen := 4 }] := by decide
+
+/-- the conclusion of `opt_lift` on the example -/
+example : ∃ w h0 all, Spec.walk c09Bytes = some w ∧ Header.parse c09Bytes = .ok h0 ∧
+    h0.opt = none ∧ Framing.Corr (Framing.RecOK c09Bytes) all w.additional :=
+  let ⟨w, h0, all, h1, h2, h3, h4, _⟩ := opt_lift c09_parse; ⟨w, h0, all, h1, h2, h3, h4⟩
+
+/-- `Packet.WF` does not forbid an OPT-typed record in `additional` while `header.opt` is set
+(the library's public field allows it too): such a packet is written with two OPT records, so
+"exactly one" needs the hypothesis that `additional` has none. -/
+example :
+    let o : OptData := { udp := 512, version := 0, codes := [] }
+    let p : Packet :=
+      { header := { id := 0, opcode := .StandardQuery, rcode := .NoError, flags := 0,
+                    opt := some o },
+        questions := [], answers := [], nameServers := [],
+        additional := [{ name := [], cls := .IN, ttl := 0, rdata := .opt o, flush := false }] }
+    p.WF ∧ Packet.build p = .ok ([0, 0, 0, 0, 0, 0, 0, 0, 0, 0, 0, 2] ++
+      ([0, 0, 41, 2, 0, 0, 0, 0, 0, 0, 0] ++ [0, 0, 41, 2, 0, 0, 0, 0, 0, 0, 0])) := by decide
 
 end Dns
